@@ -35,7 +35,8 @@ pub fn run_case(cx: &mut Ctx) {
         cx.part.evaluations += 1;
         let (c_before, s_before) = snapshot(&h);
         let live: Vec<usize> = timers.iter().enumerate().filter(|(_, t)| t.is_some()).map(|(i, _)| i).collect();
-        let op = rng.below(14);
+        let op = rng.below(15);
+        let mut may_record_one = false;
         let mut expect_delta: u64 = 0;
         let mut returned: Option<f64> = None;
         let mut started_at: Option<Instant> = None;
@@ -219,6 +220,46 @@ pub fn run_case(cx: &mut Ctx) {
                     expect_delta = 1;
                     log.push(format!("t{} dropped while its thread unwinds from a panic", i));
                 }
+                14 => {
+                    // fault path: the timed closure panics and the caller catches the panic. The property does not
+                    // say whether the aborted run is recorded (today it is not), so zero or one observation is
+                    // accepted here - but nothing else, and every later step must still add up exactly.
+                    let on_local = rng.chance(1, 2);
+                    let reenter = rng.chance(1, 2);
+                    let l0 = &locals[0];
+                    let mut inner = 0u64;
+                    let r = std::panic::catch_unwind(std::panic::AssertUnwindSafe(|| {
+                        let work = || -> u64 {
+                            if reenter {
+                                // the closure has used the histogram and holds a live timer of it when it panics
+                                l0.observe(0.25);
+                                inner = 1;
+                                let _t = l0.start_timer();
+                                panic!("workload panic inside a timed closure (live local timer)");
+                            }
+                            panic!("workload panic inside a timed closure");
+                        };
+                        if on_local {
+                            l0.observe_closure_duration(work)
+                        } else {
+                            h.observe_closure_duration(work)
+                        }
+                    }));
+                    assert!(r.is_err());
+                    cx.part.count("panicking_timed_closures", 1);
+                    if inner == 1 {
+                        // the inner observe stays pending on local0; the inner timer was dropped by the unwinding
+                        // and reached the shared histogram at once
+                        local_own[0] += 1;
+                        count += 1;
+                    }
+                    // bring everything pending on local0 to the shared histogram so that the books can be compared
+                    locals[0].flush();
+                    pending_flushed = local_own[0];
+                    local_own[0] = 0;
+                    may_record_one = true;
+                    log.push(format!("observe_closure_duration on {} with a closure that panics{} (caught); local0.flush()", if on_local { "local0" } else { "the shared histogram" }, if reenter { " after observing on local0 and starting a local timer" } else { "" }));
+                }
                 _ => {
                     locals.push(h.local());
                     local_own.push(0);
@@ -228,6 +269,10 @@ pub fn run_case(cx: &mut Ctx) {
         }
         count += expect_delta + pending_flushed;
         let (c_after, s_after) = snapshot(&h);
+        if may_record_one && c_after == count + 1 {
+            cx.part.count("panicking_closures_recorded", 1);
+            count += 1;
+        }
         let detail = || jobj! {"history" => log.clone()};
         if c_after != count {
             cx.violation(
@@ -258,7 +303,7 @@ pub fn run_case(cx: &mut Ctx) {
                     return;
                 }
             }
-        } else if s_after.to_bits() != s_before.to_bits() {
+        } else if s_after.to_bits() != s_before.to_bits() && !may_record_one {
             cx.violation("sum-changed-without-an-observation", site, format!("sample_sum went from {:?} to {:?}", s_before, s_after), detail());
             return;
         }
